@@ -10,10 +10,11 @@ from hypothesis import strategies as st
 from vp import gen, simgen
 from vp.framework import Violation, Inconclusive
 
-RULE = ("Generated stretched grid (6..10 x 4..8 x 4..8), computational grid "
-        "= model grid (gridding='same', or 'input'/'dict' with an "
-        "equal-valued copy of the model grid), linear receivers; 1..3 "
-        "sources of mixed type (electric point, "
+RULE = ("Generated stretched grid (6..10 x 4..8 x 4..8), optionally "
+        "translated to UTM-scale coordinates (5e5, 6.2e6, -3e3); "
+        "computational grid = model grid (gridding='same', or 'input'/"
+        "'dict' with an equal-valued copy of the model grid), linear "
+        "receivers; 1..3 sources of mixed type (electric point, "
         "dipole in three coordinate formats, wire; magnetic point, dipole), "
         "1..4 electric/magnetic receivers (absolute and source-relative), "
         "1..3 frequencies in drawn (not ascending) order; sources/receivers/"
@@ -25,19 +26,20 @@ RULE = ("Generated stretched grid (6..10 x 4..8 x 4..8), computational grid "
         "independently for noise floor and relative error, explicit std, "
         "std together with floor/error (std has priority), given through "
         "the constructor, the setters (also after a reset of a set std) or "
-        "the data dict; simulation options {1 or 2 workers, file_dir, "
-        "explicit tol_gradient}; history before the gradient is taken "
-        "{fresh, compute, misfit, clean('keepresults'), 'results' and "
-        "'computed' round trips, gradient for other observed data/std then "
-        "clean('computed'), jtvec first, jvec first}; perturbation "
+        "the data dict; simulation options {file_dir, explicit "
+        "tol_gradient, two workers (thorough tier only)}; history before "
+        "the gradient is taken {fresh, compute, misfit, "
+        "clean('keepresults'), 'results' and 'computed' round trips, "
+        "gradient for other observed data/noise then clean('computed'), "
+        "jtvec first, jvec first}; perturbation "
         "direction dense / single cell (interior, or anywhere with faces/"
         "edges/corners forced) / single component / outer cell layer.  "
         "Oracle: central "
         "finite differences (steps 2e-2, 1e-2, 1e-3 and Richardson) of the "
         "misfit of forward data obtained by DIRECT solves of the checker-"
         "assembled operator converge at second order to <gradient, "
-        "direction>; for the sparse directions additionally relative to "
-        "|g.d| itself; "
+        "direction>; for single-cell directions additionally relative to "
+        "the gradient entry itself; "
         "misfit equals the checker's own formula; shape per anisotropy case; "
         "finite entries.  Non-trivial = misfit>0, |g|>0, all solves "
         "converged; distinct by the whole spec.")
@@ -46,34 +48,46 @@ ASSUMPTIONS = [
     "solve does not converge are inconclusive",
     "threshold: |FD - g.d| <= 1e-5 ||g|| ||d|| at the best step and a "
     ">=30x decrease from step 1e-2 to 1e-3 when above the floor (measured: "
-    "typically 1e-9, worst 7e-7 at the best step over 750 thorough cases; "
+    "typically 1e-9, worst 7e-7 at the best step over 750 thorough cases, "
+    "1.6e-6 over 800 cases with the extended generator; "
     "the smallest effect of a mutant/seeded change was 2.5e-4)",
-    "sparse directions (single cell, single component, outer layer): "
-    "additionally |FD - g.d| <= 1e-3 |g.d| + 3e-6 ||g|| ||d|| (the floor "
-    "term covers the round-off of the finite differences)",
-    "the history 'other observed data, gradient, set the real data/noise, "
-    "clean(\"computed\"), gradient' assumes that clean('computed') removes "
-    "everything derived from the data (its docstring: all computed "
-    "properties); data are changed through survey.data['observed'][...] "
-    "and the documented setters",
-    "unit mu_r/epsilon_r are admitted by the gradient (its test is "
+    "single-cell directions (g.d = g_i d_i, no cancellation): additionally "
+    "|FD - g.d| <= 1e-3 |g.d| + 1e-6 ||g|| ||d|| (measured over 250 such "
+    "cases: error <= 5e-6 |g.d|, <= 1.5e-7 ||g|| ||d||; the floor term "
+    "covers the round-off of the differences, estimated 1e-8..1e-7)",
+    "the history 'gradient for other observed data and noise, set the real "
+    "data and noise, clean(\"computed\"), gradient' assumes that "
+    "clean('computed') removes everything derived from the data (its "
+    "docstring: all computed properties); data are changed through "
+    "survey.data['observed'][...] and the documented setters",
+    "mu_r/epsilon_r equal to one are admitted by the gradient (its test is "
     "allclose(v, 1)); the checker's direct solves use the same mu_r/"
-    "epsilon_r",
+    "epsilon_r (epsilon_r switches the displacement term on)",
+    "a set standard deviation has priority over noise floor and relative "
+    "error; survey.standard_deviation = None restores them (docstring of "
+    "Survey.standard_deviation)",
 ]
 SHARDS = {'quick': 1, 'thorough': 16}
 STEPS = [2e-2, 1e-2, 1e-3]
 
 DIRS = ['dense', 'dense', 'cell', 'component', 'cell_any', 'boundary']
-SPARSE_DIRS = ('cell', 'component', 'cell_any', 'boundary')
+CELL_DIRS = ('cell', 'cell_any')
 HISTORIES = ['fresh', 'fresh', 'compute', 'misfit', 'keepresults',
              'results_rt', 'copy', 'regrad_newobs', 'jtvec_first',
              'jvec_first']
-SIMOPTS = [None, None, None, 'workers2', 'file_dir', 'input_grid',
-           'dict_grid', 'tol_gradient']
+SIMOPTS = [None, None, None, 'file_dir', 'input_grid', 'dict_grid',
+           'tol_gradient']
+# two workers cost ~30 s per case (process pools for every compute/
+# back-propagation): thorough tier only, with a small weight (C11 owns the
+# independence of the worker count)
+SIMOPTS_THOROUGH = SIMOPTS*2 + ['workers2']
 KEYS = ['auto', 'auto', 'dict', 'nested']
 UNITS = [None, None, None, 'mur', 'epsr', 'both', 'scalar']
-NOISE_KINDS = ['nf', 're', 'both', 'both', 'std', 'std+nf', 'std+both']
+NOISE_KINDS = ['nf', 're', 'both', 'std', 'std+nf', 'std+both', 'std+nf',
+               'std+both']
 NOISE_VIA = ['ctor', 'setter', 'setter_reset', 'data_dict']
+# translation of grid and survey to UTM-scale coordinates (simgen key 'shift')
+SHIFTS = [None, None, [5e5, 6.2e6, -3e3]]
 
 # Flags for single generator branches (rule: a branch on which the unchanged
 # tree violates the property is switched off and reported, not allow-listed).
@@ -82,7 +96,13 @@ ENABLE_SIMOPT = True
 ENABLE_KEYS = True
 ENABLE_NOISE2 = True
 ENABLE_UNIT = True
+ENABLE_SHIFT = True
 ENABLE_SPARSE_ORACLE = True
+# history='keepresults' x simopt='dict_grid': found a defect of emg3d
+# (clean('keepresults'|'all') threw the user-provided grids of
+# gridding='dict' away; repaired in /repo 1a0a38f, regression replay
+# findings/C07/dict_grid_clean.json).  Generated again.
+ENABLE_DICT_KEEPRESULTS = True
 
 
 def noise_spec():
@@ -95,14 +115,16 @@ def noise_spec():
     })
 
 
-def spec_strategy():
+def spec_strategy(quick=True):
     return st.fixed_dictionaries({
-        'problem': simgen.problem_spec(),
+        'problem': st.builds(
+            lambda pr, sh: {**pr, 'shift': sh} if ENABLE_SHIFT else pr,
+            simgen.problem_spec(), st.sampled_from(SHIFTS)),
         'dir': st.sampled_from(DIRS),
         'dseed': gen.SEED,
         # keys below are read with .get (old replay files do not have them)
         'history': st.sampled_from(HISTORIES),
-        'simopt': st.sampled_from(SIMOPTS),
+        'simopt': st.sampled_from(SIMOPTS if quick else SIMOPTS_THOROUGH),
         'keys': st.sampled_from(KEYS),
         'fperm': gen.SEED,
         'unit': st.sampled_from(UNITS),
@@ -353,6 +375,9 @@ def _with_history(spec, p, obs, noise, mk_sim):
     nfl, rel, std, via = noise
     hist = spec.get('history') if ENABLE_HISTORY else None
     hist = hist or 'fresh'
+    if hist == 'keepresults' and spec.get('simopt') == 'dict_grid' and \
+            not ENABLE_DICT_KEEPRESULTS:
+        hist = 'misfit'
     if hist == 'regrad_newobs':
         # gradient for other observed data and another noise model first
         # (one more datum missing, so that the real data set has a datum
@@ -439,7 +464,6 @@ def _case_gradient(spec, rec, tmp):
     ncomp = {'isotropic': 1, 'HTI': 2, 'VTI': 2, 'triaxial': 3}[p.case]
     shape = tuple(int(n) for n in p.grid.shape_cells)
     exp_shape = shape if ncomp == 1 else (ncomp,)+shape
-    ctx_sig = f"{hist}:{simopt}"
     if g.shape != exp_shape:
         raise Violation(f"gradient_shape:{p.case}",
                         f"{g.shape} vs {exp_shape}")
@@ -476,7 +500,8 @@ def _case_gradient(spec, rec, tmp):
     info = (f"for steps {STEPS}; g.d={gd:.6e}, |g||d|={scale:.3e}, "
             f"misfit={phi:.6e}; sources {srck}; receivers "
             f"{spec['problem']['rec']}; noise {nlab} via {via}; history "
-            f"{hist}; option {simopt}; keys {keys}; unit {unit}")
+            f"{hist}; option {simopt}; keys {keys}; unit {unit}; shift "
+            f"{spec['problem'].get('shift')}")
     if best > 1e-5:
         raise Violation(
             f"gradient_not_derivative:{sig}",
@@ -484,12 +509,13 @@ def _case_gradient(spec, rec, tmp):
     if errs[0] > 1e-4 and errs[1] > errs[0]/3 + 3*best:
         raise Violation(f"gradient_not_second_order:{sig}",
                         f"errors {errs} for steps {STEPS} + Richardson")
-    sparse = spec['dir'] in SPARSE_DIRS
-    if ENABLE_SPARSE_ORACLE and sparse and spec.get('history') is not None \
-            and min(aerr) > 1e-3*abs(gd) + 3e-6*scale:
+    # A single-cell direction has g.d = g_i d_i (no cancellation): the error
+    # is also demanded relative to that entry, above a round-off floor.
+    if ENABLE_SPARSE_ORACLE and spec['dir'] in CELL_DIRS and \
+            'history' in spec and min(aerr) > 1e-3*abs(gd) + 1e-6*scale:
         raise Violation(
-            f"gradient_not_derivative_sparse:{spec['dir']}:{sig}",
-            f"|FD-g.d|/|g.d| = {['%.2e' % (e/abs(gd)) for e in aerr]}, "
+            f"gradient_not_derivative_cell:{sig}",
+            f"|FD-g.d|/|g.d| = {['%.2e' % (e/max(abs(gd), 1e-300)) for e in aerr]}, "
             f"/(|g||d|) = {['%.2e' % e for e in errs]} {info}")
     rec.cls(f"mapping={p.mapping}", f"case={p.case}", f"dir={spec['dir']}",
             f"noise={nlab[0]}", f"noise_shape={nlab[1]}",
@@ -501,6 +527,7 @@ def _case_gradient(spec, rec, tmp):
             *[f"rec={k}" for k in set(spec['problem']['rec'])],
             f"nsrc={p.shape[0]}", f"nfreq={p.shape[2]}",
             f"history={hist}", f"simopt={simopt}", f"keys={keys}",
+            f"utm_shift={spec['problem'].get('shift') is not None}",
             f"freq_unsorted={unsorted}", f"unit={unit}")
     rec.nt(spec)
     rec.note({'shape': list(shape), 'mapping': p.mapping, 'case': p.case,
@@ -554,5 +581,6 @@ SUBS = {'gradient': case_gradient, 'explicit': case_explicit}
 
 def run(ctx):
     ctx.regression(SUBS)
-    ctx.explore('gradient', spec_strategy(), case_gradient, ctx.n(40, 60),
+    ctx.explore('gradient', spec_strategy(ctx.quick), case_gradient,
+                ctx.n(40, 60),
                 shrink=not ctx.quick)
